@@ -559,9 +559,20 @@ def classify_cc(d: dict, cfg: dict, mode: dict, names: dict, cache: dict, outdir
     m = re.search(r"has no member named '(\w+)'", msg)
     if m:
         # declaration and use of a member disagree: a reserved name decorated before stropping in one place, after it in another
+        if m.group(1).endswith("_bitpacked_") and re.search(r"[\w>.]_bitpacked_\[", line):
+            return {"cause": "name|member-declared-and-used-under-different-stropped-names", "detail": "_<name>_bitpacked_", "scope": (), "note": f"member {m.group(1)!r}"}
         for n in sorted(names["nonplain"], key=len, reverse=True):
-            if n in m.group(1) and m.group(1) != n:
-                return {"cause": "name|member-declared-and-used-under-different-stropped-names", "detail": m.group(1).replace(n, "<name>"), "scope": ()}
+            if len(n) > 1 and n in m.group(1) and m.group(1) != n:
+                return {"cause": "name|member-declared-and-used-under-different-stropped-names", "detail": m.group(1).replace(n, "<name>", 1), "scope": ()}
+    if target == "cpp" and "no matching function for call to 'operator new(" in msg:
+        return {"cause": "missing-include", "detail": "<new>", "scope": ("omit",), "neutralise": [("-include", "new")]}
+    m = re.search(r"'(\w+)' in namespace '([\w:]+)' does not name a type|'(\w+)' is not a member of '([\w:]+)'", msg)
+    if target == "cpp" and m and not (m.group(2) or m.group(4)).startswith("std"):
+        inner = (m.group(2) or m.group(4)).split("::")
+        member = m.group(1) or m.group(3)
+        if len(inner) >= 2 and re.search(r"(?<![:\w])" + re.escape(inner[-1]) + r"::(\w+::)*" + re.escape(member) + r"\b", line):
+            # a reference `a::T` emitted inside namespace `x::a` finds `x::a`, not the root namespace `a` it means
+            return {"cause": "type-reference-not-anchored-at-global-namespace", "detail": "", "scope": ()}
     if target == "cpp" and re.search(r"'size_t' (does not name a type|has not been declared)", msg) and re.search(r"\bsize_t index\(\) const|template<size_t I\b", line):
         return {"cause": "unqualified-size_t", "detail": "", "scope": (), "neutralise": [("-include", "cstddef")]}
     # an identifier of the universe at the error location.  The signatures are deliberately coarse (one per target and kind of
@@ -584,8 +595,6 @@ def classify_cc(d: dict, cfg: dict, mode: dict, names: dict, cache: dict, outdir
             if pat.search(x):
                 return {"cause": "missing-include", "detail": f"<{hdr}>", "scope": ("omit",), "neutralise": [("-include", hdr)]}
         return {"cause": "missing-include", "detail": f"std::{x}", "scope": ("omit",)}
-    if target == "cpp" and "no matching function for call to 'operator new(" in msg:
-        return {"cause": "missing-include", "detail": "<new>", "scope": ("omit",), "neutralise": [("-include", "new")]}
     if m:
         x = m.group(1) or m.group(2)
         if target == "cpp" and x in ("size_t", "ptrdiff_t"):
@@ -1160,6 +1169,9 @@ def directed_shapes() -> dict:
         _S(q + ["svc"], "UsesB", [_F(_ref(b), "b")], [_F({"t": "farr", "elem": _ref(types[11]), "n": 2}, "v")]),
     ]
     qt.append(_T(q, "Chain", [_F(_ref(qt[0]), "u")], union=False, sealed=False, extent_extra=1))
+    # a nested namespace named like the OTHER root namespace, with a reference to a type of that root
+    qt.append(_T(q + ["shp"], "Inner", [_F(_U8, "x")]))
+    qt.append(_T(q + ["shp"], "UsesRootOfSameName", [_F(_ref(a), "a"), _F(_ref(qt[-1]), "inner")]))
     return {"roots": [{"name": "shp", "types": types}, {"name": "shq", "types": qt}]}
 
 
